@@ -101,3 +101,34 @@ Proof.
   cbv zeta. split; [|vm_compute; repeat split; reflexivity].
   vm_compute. repeat constructor; simpl; intuition discriminate.
 Qed.
+
+(* ---------------- rollback ---------------- *)
+(* the operation sequence of rollback (restores of the snapshot's files, then of its manifests,
+   then the deletes, then the rollback record) computes exactly the rollback model *)
+Theorem C07_rollback_refines : forall w id w' tgt cur h,
+  nth_error (snaps w) id = Some tgt -> head_of (snaps w) = Some h -> nth_error (snaps w) h = Some cur ->
+  rollback w id = (RbOk, w') ->
+  forall q, cfiles (run (steps_of_rollback (files w) tgt cur) (init_state (files w))) q = files w' q.
+Proof. exact run_all_is_rollback. Qed.
+Print Assumptions C07_rollback_refines.
+
+(* at every crash point of a rollback every file holds its previous or its final content *)
+Theorem C07_rollback_old_or_new : forall f tgt cur k p,
+  NoDup (map (fun e : str * path * N => snd (fst e)) (sn_managed tgt)) ->
+  NoDup (map (fun e : str * path * N => snd (fst e)) (sn_managed cur)) ->
+  (forall e, In e (sn_managed tgt) -> is_manifest_path (snd (fst e)) = false) ->
+  (forall e, In e (sn_managed cur) -> is_manifest_path (snd (fst e)) = false) ->
+  (forall e e', In e (sn_managed cur) -> In e' (sn_managed tgt) -> snd (fst e) = snd (fst e') -> fst (fst e) = fst (fst e')) ->
+  NoDup (map a_path (filter (fun c => is_manifest_path (a_path c) && is_cu (a_op c)) (sn_changes tgt))) ->
+  cfiles (run_prefix k (steps_of_rollback f tgt cur) (init_state f)) p = f p \/
+  cfiles (run_prefix k (steps_of_rollback f tgt cur) (init_state f)) p =
+    cfiles (run (steps_of_rollback f tgt cur) (init_state f)) p.
+Proof. exact rollback_old_or_new. Qed.
+Print Assumptions C07_rollback_old_or_new.
+
+(* the rollback record is written only after all restores and deletes *)
+Theorem C07_rollback_record_last : forall f tgt cur k,
+  crecord (run_prefix k (steps_of_rollback f tgt cur) (init_state f)) = true ->
+  (length (steps_of_rollback f tgt cur) <= k)%nat.
+Proof. exact rollback_record_last. Qed.
+Print Assumptions C07_rollback_record_last.
